@@ -315,7 +315,8 @@ impl<A: Clone> RangeMap<A> {
                         // Three cases to consider:
                         //
                         // (1) overlap starts from the left end of old range:
-                        //     update A, increment B
+                        //     if it covers the whole old range: increment A
+                        //     otherwise: update A, increment B
                         //
                         // (2) overlap ends at the right end of old range:
                         //     push left of overlap, increment A
@@ -325,8 +326,14 @@ impl<A: Clone> RangeMap<A> {
 
                         // (1)
                         if *overlap.start() == old_range_.start {
-                            old_range_.start = *overlap.end() + 1;
-                            removed_range = removed_ranges_iter.next();
+                            if *overlap.end() == old_range_.end {
+                                // The whole range is removed. Removed range may overlap with the
+                                // next ranges too, so don't increment B.
+                                old_range = old_ranges_iter.next();
+                            } else {
+                                old_range_.start = *overlap.end() + 1;
+                                removed_range = removed_ranges_iter.next();
+                            }
                         }
                         // (2)
                         else if *overlap.end() == old_range_.end {
